@@ -12,6 +12,7 @@ import TzVerif.Model.TimeZone
 import TzVerif.Spec.Zone
 import TzVerif.Proofs.Leap
 import TzVerif.Proofs.SrcEqZone
+import TzVerif.Generated.StableC12   -- per run: the current translation (SrcNow) equals the baseline (Src) these theorems are about
 
 namespace TzVerif.C12
 open TzVerif.Model
